@@ -357,7 +357,7 @@ def sign_match_cases(rng, res, n):
             variant = rng.choice(["sign_verify_ok", "verify_wrong_key", "verify_unsigned", "verify_with_append", "both_key_kinds",
                                   "missing_file", "sign_bad_key", "link_two_keys", "match_equal", "match_changed", "match_missing_link",
                                   "link_append", "link_one_key", "verify_gpg_no_id", "verify_with_output", "no_key_arg",
-                                  "verify_with_empty_output", "verify_many", "verify_many", "verify_many"])
+                                  "verify_with_empty_output", "verify_many", "verify_many", "verify_many", "link_verify_gpg_no_id"])
             if variant in ("sign_verify_ok", "verify_wrong_key"):
                 _av = ["-f", "l.layout", "-k", priv_path(k)]
                 st, _o, _e = cli.run_main("in_toto_sign", _av)
@@ -387,6 +387,16 @@ def sign_match_cases(rng, res, n):
                 _av = ["-f", "l.layout", "-k", os.path.join(d, "nokey.pem")]
                 st, _o, _e = cli.run_main("in_toto_sign", _av)
                 record(res, "sign", {"variant": variant}, st, "fail", argv=_av, file_kind="layout")
+            elif variant == "link_verify_gpg_no_id":
+                lk = Link(name="s")
+                mdl = Envelope.from_signable(lk) if dsse else Metablock(signed=lk)
+                mdl.create_signature(k.signer)
+                if rng.random() < 0.5:
+                    mdl.signatures = []           # nothing that could verify at all
+                mdl.dump("s.link")
+                _av = ["-f", "s.link", "--verify", "-g"]
+                st, _o, _e = cli.run_main("in_toto_sign", _av)
+                record(res, "sign_verify", {"variant": variant, "dsse": dsse}, st, "usage", argv=_av, file_kind="link")
             elif variant == "verify_many":
                 # a layout signed by some keys, verified with several keys in one invocation, in any order: status 0
                 # exactly when every given key verifies
